@@ -2,3 +2,7 @@
 pub mod c01_gen;
 #[path = "../../../checks/src/props/c02_gen.rs"]
 pub mod c02_gen;
+#[path = "../../../checks/src/props/c04_gen.rs"]
+pub mod c04_gen;
+#[path = "../../../checks/src/props/c06_gen.rs"]
+pub mod c06_gen;
